@@ -428,3 +428,33 @@ def prepare(ctx, need_bins=False):
     build_driver()
     if ctx.proof["failed"]:
         log("PROOF-BROKEN " + ctx.proof["failed"][:3000])
+
+
+def run_sessions(binary, sessions, tag, shards=NCPU, timeout=900):
+    """sessions: list of lists of command lines that must run in order in ONE process (they share
+    state, e.g. an in-process server). Returns a list of lists of output lines."""
+    if not sessions:
+        return []
+    shards = max(1, min(shards, len(sessions)))
+    groups = [[] for _ in range(shards)]
+    for i, s in enumerate(sessions):
+        groups[i % shards].append(i)
+    from concurrent.futures import ThreadPoolExecutor
+    results = [None] * len(sessions)
+
+    def work(g):
+        idxs = groups[g]
+        lines = []
+        for i in idxs:
+            lines += sessions[i]
+        rc, out, err = _run_file(binary, lines, "%s-s%d" % (tag, g), timeout)
+        if len(out) < len(lines):
+            out = out + ["CRASH rc=%s" % rc] * (len(lines) - len(out))
+        k = 0
+        for i in idxs:
+            results[i] = out[k:k + len(sessions[i])]
+            k += len(sessions[i])
+
+    with ThreadPoolExecutor(max_workers=shards) as ex:
+        list(ex.map(work, range(shards)))
+    return results
